@@ -256,11 +256,11 @@ def evaluate__instance_expression(self: XPathToken, context: ta.ContextType = No
             if context.axis is None:
                 context.axis = 'self'
 
+            item = context.item
             result = self[1].evaluate(context)
-            if isinstance(result, list) and not result:
-                return occurs in ('*', '?') or \
-                    isinstance(context.item, XPathFunction) and \
-                    context.item.name == XSD_ERROR
+            if isinstance(result, list) and (not result or result[0] is not item):
+                return isinstance(item, XPathFunction) and \
+                    item.name == XSD_ERROR
             elif position and occurs in ('', '?'):
                 return False
         else:
